@@ -80,3 +80,21 @@ package couchbase
 //@ requires so != nil
 //@ ensures.set so.vbUUID == vbUUID
 //@ modifies so.vbUUID
+
+//@ func nodeVersionFromString
+//@ props C18
+//@ let n = splitlen(version, ".")
+//@ let p0 = splitat(version, ".", 0)
+//@ let p1 = splitat(version, ".", 1)
+//@ let p2 = splitat(version, ".", 2)
+//@ let nb = splitlen(p2, "-")
+//@ let pp = splitat(p2, "-", 0)
+//@ let b0 = splitat(splitat(p2, "-", 1), "-", 0)
+//@ ensures.reject[C18] (result1 != nil) == (!atoiok(p0) || (n >= 2 && !atoiok(p1)) || (n >= 3 && !atoiok(pp)))
+//@ ensures.result[C18] (result1 != nil ==> result == nil) && (result1 == nil ==> result != nil && fresh(result))
+//@ ensures.major[C18] result1 == nil ==> result.Major == atoi(p0)
+//@ ensures.minor[C18] result1 == nil ==> result.Minor == ite(n >= 2, atoi(p1), 0)
+//@ ensures.patch[C18] result1 == nil ==> result.Patch == ite(n >= 3, atoi(pp), 0)
+//@ ensures.build[C18] result1 == nil ==> result.Build == ite(n >= 3 && nb >= 2, atoi(b0), 0)
+//@ nopanic
+//@ modifies nothing
